@@ -68,6 +68,12 @@ def evaluate(camp):
                                     'the loss was computed: its buffer (parameter value at the last forward pass) differs from its parameter',
                                     best_parameter=bw, best_buffer=bseen))
                     break
+            for bmode, lmode, call, ep in run.best_mode_obs:
+                if bmode != lmode:
+                    bad.append(dict(script=lines, kw=kw, fit_call=call, epoch=ep, violated='best_nets is not a copy of the networks as they were: its '
+                                    'train/eval mode differs from the live networks\' mode (mode-dependent layers then evaluate differently)',
+                                    best_training=bmode, live_training=lmode))
+                    break
             # ... and of frozen parameters too: changing them later must not reach into the stored best networks
             for baux, want, call, ep in run.aux_obs:
                 if want is not None and baux != want:
